@@ -135,7 +135,12 @@ class Primitive:
         .. image:: ../img/primitive/triangle.svg
 
         """
-        center = Point2D(center)
+        try:
+            float(side)
+            assert side > 0
+            center = Point2D(center)
+        except (ValueError, TypeError, AssertionError):
+            raise ValueError("Input invalid")
         vertices = [(0, 0), (side, 0), (0, side)]
         vertices = tuple(center + Point2D(vertex) for vertex in vertices)
         return Primitive.polygon(vertices)
